@@ -230,7 +230,7 @@ def make_a64(rng, name, shape=None, force=None):
     npairs = rng.choice([1, 2, 3, 4, 5, 5]) if shape == "frame-pairs" else 0       # up to all five callee-saved pairs
     if force:
         signing, npairs = force.get("signing", signing), force.get("npairs", npairs)
-    alloc = 16 * rng.range(0, 8) if rng.chance(3, 4) else rng.choice([0x1000, 0x2000, 0x5000])
+    alloc = 16 * rng.range(0, 8) if rng.chance(3, 4) else rng.choice([0x1000, 0x2000, 0x5000, 0x1230, 0x2010, 0x5ff0])
     pairs = [(20, 19), (22, 21), (24, 23), (26, 25), (28, 27)][:npairs]
     if signing:
         f.emit(I("pacibsp"), "prologue", A_PACIBSP)
@@ -260,11 +260,13 @@ def make_a64(rng, name, shape=None, force=None):
         f.emit(I("stp_off", 29, 30, 16 * npairs), "prologue", a_stp_off(29, 30, 16 * npairs))
         f.emit(I("addfp", 16 * npairs), "prologue", a_add_fp_sp(16 * npairs))
         f.pre_tot = tot
-    if alloc:
-        f.emit(I("sub", alloc), "prologue", a_sub_sp(alloc))
+    # locals of 4 KiB and more that are not a multiple of 4 KiB take two instructions (sub #hi, lsl #12; sub #lo)
+    parts = [alloc] if alloc < 4096 or alloc % 4096 == 0 else [alloc & ~0xfff, alloc & 0xfff]
+    for part in (parts if alloc else []):
+        f.emit(I("sub", part), "prologue", a_sub_sp(part))
     a_body(f, rng, rng.range(1, 3))
-    if alloc:
-        f.emit(I("add", alloc), "epilogue", a_add_sp(alloc))
+    for part in (parts if alloc else []):
+        f.emit(I("add", part), "epilogue", a_add_sp(part))
     if subfirst:
         f.emit(I("ldp_off", 29, 30, local + 16 * npairs), "epilogue", a_ldp_off(29, 30, local + 16 * npairs))
         for k, (a, b) in reversed(list(enumerate(pairs))):
